@@ -304,6 +304,21 @@ class GModel:
         return "\n".join(parts) + "\n"
 
 
+def sibling(m: "GModel", rng: random.Random) -> "GModel":
+    """a model with the same name, states, parameters and intermediates whose derivative expressions
+    are rotated among the states: same names, different equations (another dependency order)"""
+    import copy
+    sm = copy.deepcopy(m)
+    ders = [n for n in m.order if m._is_deriv(n)]
+    if len(ders) < 2:
+        return sm
+    k = rng.randint(1, len(ders) - 1)
+    for i, d in enumerate(ders):
+        src = ders[(i + k) % len(ders)]
+        sm.assigns[d] = (m.assigns[src][0], m.assigns[d][1])
+    return sm
+
+
 def render_block(kind, c, lines, rng=None):
     names = ", ".join(f'"{x}"' for x in c) if isinstance(c, tuple) else (f'"{c}"' if c else "")
     if kind in ("states", "parameters"):
